@@ -331,8 +331,10 @@ class PiecewiseConstantBirthDeath(Distribution):
         y = times[..., -1:] - tip_heights
 
         if serially_sampled:
+            # a tip sampled exactly at t_i belongs to the interval ending at t_i
+            # (it is not counted in n_i and rho_i decides if it is a rho-sample)
             indices_y = torch.clamp(
-                torch.searchsorted(times, y, right=True) - 1, max=m - 1
+                torch.searchsorted(times, y, right=False) - 1, min=0
             )
             # true if the node of the given index occurs at the time of a
             # rho-sampling event
